@@ -119,12 +119,12 @@ CSRMatrix* extended_interpolation(CSRMatrix* A, CSRMatrix* S,
             }
             else
             {
-                if (states[col] == Unselected || pos[col] < row_start)
+                // every connection that is not strong is lumped into the
+                // diagonal (as the distributed routine does), also one to a
+                // coarse point reached at distance two
+                if (num_variables == 1 || variables[i] == variables[col])
                 {
-                    if (num_variables == 1 || variables[i] == variables[col])
-                    {
-                        weak_sum += A->vals[j];
-                    }
+                    weak_sum += A->vals[j];
                 }
             }
         } 
